@@ -1,7 +1,10 @@
-"""Own backtracking matcher for the regex subset on which ECMA 262 and Python
+r"""Own backtracking matcher for the regex subset on which ECMA 262 and Python
 `re` agree: literals, escaped punctuation, `.`, classes with ranges and
 negation, `^ $`, greedy `* + ? {m} {m,} {m,n}`, groups `( )` `(?: )`,
-alternation.  Code-point based; subject strings must contain no line
+alternation, and back-references `\1`..`\9` to a capturing group that stands directly in
+the top-level sequence before the reference (so it has always participated and is never
+re-entered: the cases where the two dialects treat unset or repeated captures differently are
+left out).  Code-point based; subject strings must contain no line
 terminator (there `.` and `$` differ between the two dialects).
 
 `search(pattern, s)` -> bool (unanchored, as `pattern`/`patternProperties`
@@ -21,6 +24,7 @@ class _P:
     def __init__(self, src):
         self.s = src
         self.i = 0
+        self.ngroups = 0
 
     def peek(self):
         return self.s[self.i] if self.i < len(self.s) else None
@@ -88,14 +92,18 @@ class _P:
     def atom(self):
         c = self.eat()
         if c == "(":
+            n = 0
             if self.peek() == "?":
                 self.eat()
                 if self.peek() != ":":
                     raise Unsupported("group extension")
                 self.eat()
+            else:
+                self.ngroups += 1
+                n = self.ngroups
             inner = self.alt()
             self.eat(")")
-            return ("grp", inner)
+            return ("grp", inner, n)
         if c == "[":
             return self.cls()
         if c == ".":
@@ -108,6 +116,10 @@ class _P:
             e = self.eat()
             if e in _META or e in "/-":
                 return ("lit", e)
+            if e in "123456789":
+                if self.peek() is not None and self.peek() in "0123456789":
+                    raise Unsupported("multi-digit back-reference")
+                return ("bref", int(e))
             raise Unsupported("escape \\%s" % e)
         if c in _META:
             raise Unsupported("bare metachar %r" % c)
@@ -152,7 +164,38 @@ def parse(pattern):
     node = p.alt()
     if p.i != len(pattern):
         raise Unsupported("trailing %r" % pattern[p.i:])
+    _check_brefs(node)
     return node
+
+
+def _brefs(node, acc):
+    if isinstance(node, tuple):
+        if node and node[0] == "bref":
+            acc.append(node[1])
+        for x in node:
+            if isinstance(x, (tuple, list)):
+                _brefs(x, acc)
+    elif isinstance(node, list):
+        for x in node:
+            _brefs(x, acc)
+
+
+def _check_brefs(node):
+    """Back-references only to capturing groups that are direct members of the top-level sequence, from a later member."""
+    acc = []
+    _brefs(node, acc)
+    if not acc:
+        return
+    if node[0] != "seq":
+        raise Unsupported("back-reference below a top-level alternation")
+    safe = set()
+    for item in node[1]:
+        used = []
+        _brefs(item, used)
+        if any(n not in safe for n in used):
+            raise Unsupported("back-reference to a group that may not have participated")
+        if item[0] == "grp" and item[2]:
+            safe.add(item[2])
 
 
 def supported(pattern):
@@ -163,7 +206,7 @@ def supported(pattern):
         return False
 
 
-def _m(node, s, i, k):
+def _m(node, s, i, k, caps=None):
     t = node[0]
     if t == "lit":
         return i < len(s) and s[i] == node[1] and k(i + 1)
@@ -180,23 +223,40 @@ def _m(node, s, i, k):
     if t == "eol":
         return i == len(s) and k(i)
     if t == "grp":
-        return _m(node[1], s, i, k)
+        n = node[2]
+        if not n or caps is None:
+            return _m(node[1], s, i, k, caps)
+
+        def kk(j):
+            old = caps.get(n)
+            caps[n] = (i, j)
+            if k(j):
+                return True
+            caps[n] = old
+            return False
+        return _m(node[1], s, i, kk, caps)
+    if t == "bref":
+        span = caps.get(node[1]) if caps is not None else None
+        if span is None:
+            raise Unsupported("back-reference to an unset group")
+        sub = s[span[0]:span[1]]
+        return s.startswith(sub, i) and k(i + len(sub))
     if t == "seq":
         items = node[1]
 
         def go(idx, j):
             if idx == len(items):
                 return k(j)
-            return _m(items[idx], s, j, lambda j2: go(idx + 1, j2))
+            return _m(items[idx], s, j, lambda j2: go(idx + 1, j2), caps)
         return go(0, i)
     if t == "alt":
-        return any(_m(b, s, i, k) for b in node[1])
+        return any(_m(b, s, i, k, caps) for b in node[1])
     if t == "rep":
         sub, lo, hi = node[1], node[2], node[3]
 
         def go(count, j):
             if hi is None or count < hi:
-                if _m(sub, s, j, lambda j2: (j2 != j or count < lo) and go(count + 1, j2)):
+                if _m(sub, s, j, lambda j2: (j2 != j or count < lo) and go(count + 1, j2), caps):
                     return True
             return count >= lo and k(j)
         return go(0, i)
@@ -208,6 +268,6 @@ def search(pattern, s):
         raise Unsupported("line terminator in subject")
     node = parse(pattern)
     for start in range(len(s) + 1):
-        if _m(node, s, start, lambda j: True):
+        if _m(node, s, start, lambda j: True, {}):
             return True
     return False
